@@ -12,6 +12,7 @@ let areas : (string list -> string option) list = [
   D_pkt.run_case;
   D_c16.run_case;
   D_recv.run_case;
+  D_tui.run_case;
 ]
 
 let run_case toks =
